@@ -29,6 +29,31 @@ def main():
     rep.violation("obligation-" + os.path.basename(e["file"]), "proof obligation no longer checks: " + e["error"][-400:],
                   {"file": e["file"]}, no_input=True)
   results = fixed_k.run(rep, PROP)
+  # ---- directed: leaky slopes smaller than one code of the negative side (negative_slope * 2^(non-sign bits) < 1).  The generator above
+  # keeps slope * 2^(non-sign bits) >= 1 (the model's smallest code -2^(nsb - s) is then an integer); below that the implementation
+  # saturates at -slope * 2^integer, which is off the grid (known finding); every other output must still be on the grid and in range
+  import qkeras.quantizers as Q_
+  tf = env.tf
+  n_small = 0
+  for bits_, int_, s_ in ((2, 0, 2), (3, 1, 3), (3, 0, 3), (2, 1, 3), (4, 0, 4)):
+    qs_ = Q_.quantized_relu(bits_, int_, 0, 2.0 ** -s_)
+    step_ = 2.0 ** (int_ - (bits_ - 1))
+    xs_ = np.concatenate([np.linspace(-40, 6, 369), [-1e6, -0.0, 0.0, 1e6]]).astype(np.float32)
+    ys_ = qs_(tf.constant(xs_)).numpy().astype(np.float64)
+    n_small += 1
+    rep.count(("leaky-slope-below-one-step", bits_, int_, s_))
+    off = [(float(a), float(b)) for a, b in zip(xs_, ys_) if (b / step_) != round(b / step_)]
+    sat = -(2.0 ** -s_) * 2.0 ** int_
+    other = [t for t in off if t[1] != sat]
+    hi_ = 2.0 ** int_ - step_
+    if other or np.max(ys_) > hi_ or np.min(ys_) < sat:
+      rep.violation(f"leaky-small-slope-{bits_}-{int_}-{s_}", f"quantized_relu({bits_},{int_},negative_slope=2^-{s_}): outputs off the grid other than the negative "
+                    f"saturation value, or out of [{sat}, {hi_}]: {other[:3]} min {np.min(ys_)} max {np.max(ys_)}", {"bits": bits_, "integer": int_, "slope_exp": s_})
+    elif off:
+      rep.finding("C01-leaky-relu-slope-below-one-step-saturates-off-grid",
+                  f"quantized_relu({bits_},{int_},negative_slope=2^-{s_})({off[0][0]}) = {off[0][1]}, not a multiple of the step {step_}",
+                  {"bits": bits_, "integer": int_, "slope_exp": s_, "x": off[0][0], "y": off[0][1]})
+  rep.note(leaky_slope_below_one_step_configs=n_small)
   rep.cov["rule"] = ("configs: sampled (quick) / full (thorough) lattice of bits x integer x keep_negative x symmetric x alpha x "
                      "slope x clip flags x sigmoid modes; inputs per config: every rounding breakpoint (k+1/2)*step +-1ulp, "
                      "each code, saturation edges +-1ulp, +-0, denormals, +-2^-126, up to and beyond 2^24 steps, random tensors "
